@@ -547,3 +547,49 @@ package actor
 //@ func (*ReceiveContext).Stash(rctx)
 //@   requires rctx != nil && rctx.self != nil
 //@   ensures no-buffer-reported: (old(rctx.self.stashState) == nil || old(rctx.self.stashState.box) == nil) ==> rctx.err != nil
+
+// ---------------------------------------------------------------------------
+//@ property C44
+//@ load github.com/tochemey/goakt/v4/internal/commands
+//
+// Work pulling, conservation half. The controller is an actor (one handler at a
+// time): every accepted job is in exactly one place - the pending pool or one
+// binding's unconfirmed list - until that worker confirms it; dispatch takes
+// the pool's head and records it before emitting; a binding that ends gives all
+// its unconfirmed jobs back to the head of the pool, in order.
+
+//@ structural mapwriters workPullingProducerController.pending: (*workPullingProducerController).PreStart, (*workPullingProducerController).completeAccept, (*workPullingProducerController).dispatchPending, (*workPullingProducerController).endBinding
+//@ structural writers workPullingProducerController.nextWorker: (*workPullingProducerController).PreStart, (*workPullingProducerController).nextEligibleBinding, (*workPullingProducerController).endBinding
+//@ structural mapwriters workPullingProducerController.bindings: newWorkPullingProducerController, (*workPullingProducerController).PreStart, (*workPullingProducerController).handleRegisterConsumer, (*workPullingProducerController).endBinding
+//@ structural mapwriters bindingWork.unconfirmed: (*workPullingProducerController).dispatchPending, (*workPullingProducerController).advanceConfirmed
+//@ structural writers bindingWork.currentSeq: (*workPullingProducerController).dispatchPending
+//@ structural writers bindingWork.demandUpTo: (*workPullingProducerController).handleRequest
+//@ structural writers bindingWork.confirmedSeq: (*workPullingProducerController).advanceConfirmed
+//@ structural writers bindingWork.controller: (*workPullingProducerController).handleRegisterConsumer
+
+//@ func (*bindingWork).freeDemand(x)
+//@   ensures exact: (x.demandUpTo <= x.currentSeq ==> result == 0) && (x.demandUpTo > x.currentSeq ==> result == x.demandUpTo - x.currentSeq)
+//@   modifies nothing
+
+//@ func (*workPullingProducerController).nextEligibleBinding(x)
+//@   requires x.bindings != nil && x.nextWorker >= 0
+//@   loop 1 invariant cursor: 0 <= examined && x.nextWorker >= 0 && x.bindingOrder == old(x.bindingOrder) && x.bindings == old(x.bindings)
+//@   ensures cursor-stays-valid: x.nextWorker >= 0
+//@   ensures has-free-demand: result != nil ==> result.demandUpTo > result.currentSeq
+//@   ensures is-a-live-binding: result != nil ==> exists n string :: has(x.bindings, n) && x.bindings[n] == result
+//@   modifies workPullingProducerController.nextWorker
+
+// nothing is emitted beyond the worker's demand, and only to that worker
+//@ func (*workPullingProducerController).emitSequenced(x, ctx, binding, message)
+//@   requires binding != nil
+//@   preserve bindingWork.demandUpTo, bindingWork.controller, bindingWork.currentSeq
+//@   at call 1 of (*workPullingProducerController).tell assert never-beyond-demand: message.workerSeq <= binding.demandUpTo && binding.controller != nil && arg2 == binding.controller
+
+// cumulative confirmation: monotone, confirms exactly the prefix up to it
+//@ func (*workPullingProducerController).advanceConfirmed(x, ctx, binding, confirmed)
+//@   requires binding != nil
+//@   preserve bindingWork.unconfirmed, bindingWork.confirmedSeq
+//@   loop 1 invariant cut-in-range: 0 <= cut && cut <= len(binding.unconfirmed) && binding.unconfirmed == old(binding.unconfirmed) && binding.confirmedSeq == confirmed && forall j int :: 0 <= j && j < cut ==> binding.unconfirmed[j].workerSeq <= confirmed
+//@   at call 1 of (*workPullingProducerController).sendConfirmation assert confirms-only-up-to-the-watermark: forall j int :: 0 <= j && j < len(arg2) ==> arg2[j].workerSeq <= confirmed
+//@   ensures watermark-monotone: binding.confirmedSeq >= old(binding.confirmedSeq) && (confirmed > old(binding.confirmedSeq) ==> binding.confirmedSeq == confirmed) && (confirmed <= old(binding.confirmedSeq) ==> binding.confirmedSeq == old(binding.confirmedSeq) && binding.unconfirmed == old(binding.unconfirmed))
+//@   ensures never-grows: len(binding.unconfirmed) <= old(len(binding.unconfirmed))
